@@ -2348,6 +2348,29 @@ def rule_sweeploop(text):
     return text, apps
 
 
+def rule_extentpin(text):
+    """the extent reader-pin word (record.rs)"""
+    apps = []
+    table = [
+        (_lit("self.extent_state.compare_exchange_weak("), "self.extent_state.pin_cas(", "R-pincas",
+         "shim: the compare-exchange that takes a pin; its precondition is the protocol rule (non-retired state, exactly one more reader); a failure returns an arbitrary current value"),
+        (r"\bdebug_assert!\(", "debug_check(", "R-dbg", "debug assertion: evaluated, no effect"),
+    ]
+    for pat, rep, rname, why in table:
+        n = 0
+        while n < 8:
+            n += 1
+            mm = re.search(pat, text)
+            if not mm:
+                break
+            new = mm.expand(rep)
+            if new == text[mm.start():mm.end()]:
+                break
+            apps.append(_app(rname, text, mm.start(), mm.end(), new, why))
+            text = text[:mm.start()] + new + text[mm.end():]
+    return text, apps
+
+
 def rule_wbshutdown(text):
     """WriteBuffer::{initiate_shutdown, finish_shutdown} (write_buffer.rs)"""
     apps = []
